@@ -51,6 +51,70 @@ func rhoDiv(a, b *big.Rat) *big.Rat {
 	return r.Sub(r, ratOne)
 }
 
+// Operation keys. Two floats with the same key are the same float64: the key
+// records the IEEE operation sequence over exact leaves, normalised by the
+// identities that hold bitwise in round-to-nearest (negation commutes with
+// every operation, + and * are commutative). neg is kept apart from the base
+// key so that x and -x share one materialised variable.
+func (m *Machine) opParts(v Value) (neg bool, base string) {
+	switch x := v.(type) {
+	case float64:
+		return x < 0, fmt.Sprintf("c%x", math.Float64bits(math.Abs(x)))
+	case *FSym:
+		if x.op != "" {
+			return x.neg, x.op
+		}
+		t := x.T
+		if x.l != nil {
+			t = x.l
+		} else if x.Rho.Sign() != 0 {
+			return false, ""
+		}
+		if len(t.Ts) > 0 && t.Ts[0].K.Sign() < 0 {
+			return true, "x:" + m.ctx.Neg(t).Key()
+		}
+		return false, "x:" + t.Key()
+	}
+	return false, ""
+}
+
+func (m *Machine) opKey2(name string, x, y Value) (bool, string) {
+	nx, bx := m.opParts(x)
+	ny, by := m.opParts(y)
+	if bx == "" || by == "" {
+		return false, ""
+	}
+	switch name {
+	case "mul":
+		if bx > by {
+			bx, by = by, bx
+		}
+		return nx != ny, "mul(" + bx + "," + by + ")"
+	case "div":
+		return nx != ny, "div(" + bx + "," + by + ")"
+	case "sub":
+		ny = !ny
+		fallthrough
+	case "add":
+		if bx > by {
+			bx, by, nx, ny = by, bx, ny, nx
+		}
+		sign := "+"
+		if nx != ny {
+			sign = "-"
+		}
+		return nx, "add(" + bx + sign + by + ")"
+	}
+	return false, ""
+}
+
+func (m *Machine) withOp(v Value, name string, x, y Value) Value {
+	if f, ok := v.(*FSym); ok && f.op == "" && f.Rho.Sign() != 0 {
+		f.neg, f.op = m.opKey2(name, x, y)
+	}
+	return v
+}
+
 func (m *Machine) exactF(l *sym.Lin) *FSym {
 	l = m.ctx.ToReal(l)
 	return &FSym{T: l, Rho: new(big.Rat), l: l, Exact: true}
@@ -142,11 +206,30 @@ func (m *Machine) val(f *FSym) *sym.Lin {
 		return f.l
 	}
 	t := f.T
+	if f.op != "" {
+		if r, ok := m.fmemo[f.op]; ok {
+			if f.neg {
+				r = m.ctx.Neg(r)
+			}
+			f.l = r
+			return r
+		}
+	}
 	var lo, hi *big.Rat
 	if t.Lo != nil && t.Hi != nil {
 		lo, hi = widen(t.Lo, t.Hi, f.Rho)
 	}
 	r := m.FreshReal("fr", lo, hi)
+	if f.op != "" {
+		if m.fmemo == nil {
+			m.fmemo = map[string]*sym.Lin{}
+		}
+		if f.neg {
+			m.fmemo[f.op] = m.ctx.Neg(r)
+		} else {
+			m.fmemo[f.op] = r
+		}
+	}
 	c := m.ctx
 	a := c.Scale(t, new(big.Rat).Sub(ratOne, f.Rho))
 	b := c.Scale(t, new(big.Rat).Add(ratOne, f.Rho))
@@ -181,7 +264,12 @@ func (m *Machine) intToFloat(x *sym.Lin) Value {
 	if x.Lo == nil || x.Hi == nil {
 		m.unsupported("int->float of unbounded term")
 	}
-	return &FSym{T: m.ctx.ToReal(x), Rho: ulpHalf, intConv: x}
+	if len(x.Ts) > 0 && x.Ts[0].K.Sign() < 0 {
+		// float64(-y) == -float64(y): share the variable with the positive form
+		pos := m.intToFloat(m.ctx.Neg(x)).(*FSym)
+		return m.fneg(pos)
+	}
+	return &FSym{T: m.ctx.ToReal(x), Rho: ulpHalf, intConv: x, op: "conv(" + x.Key() + ")"}
 }
 
 func (m *Machine) floatToInt(f *FSym, k intKind) Value {
@@ -301,9 +389,9 @@ func (m *Machine) floatBinop(op token.Token, x, y Value) Value {
 		}
 		xl, yl := m.fl(x), m.fl(y)
 		if op == token.ADD {
-			return m.roundOnce(c.Add(xl, yl))
+			return m.withOp(m.roundOnce(c.Add(xl, yl)), "add", x, y)
 		}
-		return m.roundOnce(c.Sub(xl, yl))
+		return m.withOp(m.roundOnce(c.Sub(xl, yl)), "sub", x, y)
 	case token.MUL:
 		if (xok && xc == 0) || (yok && yc == 0) {
 			return float64(0) // sign of zero ignored
@@ -314,9 +402,9 @@ func (m *Machine) floatBinop(op token.Token, x, y Value) Value {
 			if pow2 {
 				return m.mkF(t, new(big.Rat))
 			}
-			return m.roundOnce(t)
+			return m.withOp(m.roundOnce(t), "mul", x, y)
 		}
-		return m.mkF(t, rhoMul(rx, ry, !pow2))
+		return m.withOp(m.mkF(t, rhoMul(rx, ry, !pow2)), "mul", x, y)
 	case token.QUO:
 		if yok {
 			if yc == 0 {
@@ -327,9 +415,9 @@ func (m *Machine) floatBinop(op token.Token, x, y Value) Value {
 				return m.mkF(t, rx)
 			}
 			if rx.Sign() == 0 {
-				return m.roundOnce(t)
+				return m.withOp(m.roundOnce(t), "div", x, y)
 			}
-			return m.mkF(t, rhoMul(rx, new(big.Rat), true))
+			return m.withOp(m.mkF(t, rhoMul(rx, new(big.Rat), true)), "div", x, y)
 		}
 		if m.Branch(c.Eq0(ty)) {
 			return m.divByZero(tx)
@@ -339,9 +427,9 @@ func (m *Machine) floatBinop(op token.Token, x, y Value) Value {
 		}
 		t := c.RDiv(tx, ty)
 		if rx.Sign() == 0 && ry.Sign() == 0 {
-			return m.roundOnce(t)
+			return m.withOp(m.roundOnce(t), "div", x, y)
 		}
-		return m.mkF(t, rhoDiv(rx, ry))
+		return m.withOp(m.mkF(t, rhoDiv(rx, ry)), "div", x, y)
 	}
 	xl, yl := m.fl(x), m.fl(y)
 	switch op {
@@ -367,7 +455,10 @@ func (m *Machine) fneg(f *FSym) Value {
 	r := &FSym{T: c.Neg(f.T), Rho: f.Rho, Exact: f.Exact}
 	if f.l != nil {
 		r.l = c.Neg(f.l)
+	} else if f.op != "" {
+		r.op, r.neg = f.op, !f.neg
 	}
+	r.intConv = nil
 	return r
 }
 
@@ -376,6 +467,8 @@ func (m *Machine) fabs(f *FSym) Value {
 	r := &FSym{T: c.Abs(f.T), Rho: f.Rho, Exact: f.Exact}
 	if f.l != nil {
 		r.l = c.Abs(f.l)
+	} else if f.op != "" {
+		r.op = "abs(" + f.op + ")"
 	}
 	return r
 }
